@@ -8,7 +8,7 @@ package sarama
 // incomplete answers / dropped connections for every Admin.Retry.Max) and from
 // spec/AdminSpread.tla (leader- and coordinator-bound operations: every spread of the
 // items over three brokers with per-item verdicts) are executed on a REAL ClusterAdmin
-// talking to three scripted MockBrokers. The brokers log which of them received which
+// talking to three scripted MockBrokers (ids 0, 1, 2 - broker id 0 is an ordinary broker). The brokers log which of them received which
 // request (type, version, items) and what they answered, the driver logs the value the
 // admin call returned; spec/AdminTrace.tla evaluates the clauses of C19 on that.
 
@@ -131,7 +131,7 @@ func (d *admDialer) closeAll() {
 
 func newAdmCluster(rep *admReporter) (*admCluster, error) {
 	cl := &admCluster{rep: rep, brokers: map[int32]*MockBroker{}}
-	for id := int32(1); id <= 3; id++ {
+	for id := int32(0); id < 3; id++ {
 		var l net.Listener
 		var err error
 		for try := 0; try < 20; try++ {
@@ -178,7 +178,7 @@ func (cl *admCluster) handle(me int32, req *request) encoderWithHeader {
 	switch r := req.body.(type) {
 	case *MetadataRequest:
 		res := &MetadataResponse{Version: r.Version, ControllerID: cl.ctl}
-		for id := int32(1); id <= 3; id++ {
+		for id := int32(0); id < 3; id++ {
 			res.AddBroker(cl.brokers[id].Addr(), id)
 		}
 		for p := 0; p < 3; p++ {
@@ -191,8 +191,8 @@ func (cl *admCluster) handle(me int32, req *request) encoderWithHeader {
 		cl.ev("meta", kv{"b": int(me), "ctl": int(cl.ctl)})
 		return res
 	case *FindCoordinatorRequest:
-		owner := cl.own[admGroupIndex(r.CoordinatorKey)]
-		if owner == 0 {
+		owner, known := cl.own[admGroupIndex(r.CoordinatorKey)]
+		if !known {
 			owner = 1
 		}
 		cl.ev("lookup", kv{"b": int(me), "item": admGroupIndex(r.CoordinatorKey), "owner": int(owner)})
@@ -475,7 +475,7 @@ func (cl *admCluster) runCase(c *admCase, idx int) (kv, []admEvent, bool) {
 	dialer := &admDialer{timeout: 2 * time.Second}
 	conf.Net.Proxy.Dialer = dialer
 	defer dialer.closeAll()
-	seed := cl.brokers[int32(1+(idx+int(vSeed()))%3)].Addr()
+	seed := cl.brokers[int32((idx+int(vSeed()))%3)].Addr()
 
 	var admin ClusterAdmin
 	var setup admResult
